@@ -430,21 +430,16 @@ class SV(_SVOps):
         self.t = t
 
 
-class SVf(_SVOps, float):
+class SVf(_SVOps):
     """
-    Symbolic value that is ALSO an instance of ``float`` (its C-level value is NaN), so that code
-    dispatching on ``isinstance(v, (float, int))`` -- MultiVector.exp -- takes its numeric
-    branches.  Every arithmetic / comparison dunder is the symbolic one; ``float()`` raises.  C code
-    that reads the raw double (numpy ufuncs) must be patched out by the harness: it would silently
-    see NaN.
+    Symbolic value that is ALSO a ``numbers.Real`` (registered as a virtual subclass), so that code dispatching on
+    ``isinstance(v, numbers.Real)`` -- MultiVector.exp -- takes its numeric branches.  It is deliberately NOT a ``float``:
+    exp() applies a floating-point tolerance to python floats (repair of 'exp refuses float 2-blades'), which has no
+    place in the exact-real model; that behaviour is covered by the concrete kind exp-float-blade.  Every arithmetic /
+    comparison dunder is the symbolic one; ``float()`` raises.
     """
-    def __new__(cls, t):
-        obj = float.__new__(cls, float('nan'))
-        obj.t = t
-        return obj
-
     def __init__(self, t):
-        pass
+        self.t = t
 
     def __reduce__(self):
         raise ValueBranch('pickling a symbolic value')
@@ -572,3 +567,7 @@ def explore(fn, max_paths=64, max_depth=64, rlimit=20_000_000):
                 continue
         worklist.extend(ctx.siblings)
         yield ctx, res
+
+
+import numbers as _numbers
+_numbers.Real.register(SVf)
